@@ -219,41 +219,45 @@ theorem loose_removed_before_idx_counterexample :
 
 end patterns
 
-/-! ## 4. The orders dulwich actually uses for packed refs (F8) are NOT crash safe -/
+/-! ## 4. Packed refs (F8, fixed in /repo by bb5afda): the order as coded now is crash safe; the old
+order is kept as a regression witness -/
 
 section f8
 
-/-- `DiskRefsContainer.add_packed_refs` as coded: lock `packed-refs`, REMOVE the loose ref, then write
-and rename the new `packed-refs`. -/
+/-- `DiskRefsContainer.add_packed_refs` as coded: lock `packed-refs`, write the new `packed-refs` and
+rename it in, and only THEN remove the loose ref. -/
 def specPackRefs : Spec :=
   { edges := [(1, [])],
     known := [(.ref 1, some (.refSha 1)), (.loose 1, some (.obj 1)), (.packedRefs, none), (.tmp 1, none)],
     newRefs := [], newPlain := [], garbage := [] }
 
 def progPackRefsAsCoded : List Call :=
+  [.write (.tmp 1) .junk, .write (.tmp 1) (.packed [(1, 1)]), .rename (.tmp 1) .packedRefs, .unlink (.ref 1)]
+
+theorem add_packed_refs_safe (G : Nat → List Nat) (s : FS) (hpre : Pre specPackRefs G s)
+    (k : Nat) : Recoverable specPackRefs G s (run (progPackRefsAsCoded.take k) s) :=
+  crashSafe_of_check _ _ (by decide) G s hpre k
+
+example : Pre specPackRefs (graphOf specPackRefs) (toFS specPackRefs.known) := pre_of_check _ (by decide)
+
+/-- Regression witness — the order before bb5afda: the loose ref was REMOVED while the lock was held,
+before the new `packed-refs` was written and renamed in. -/
+def progPackRefsOldOrder : List Call :=
   [.write (.tmp 1) .junk, .unlink (.ref 1), .write (.tmp 1) (.packed [(1, 1)]), .rename (.tmp 1) .packedRefs]
 
-theorem add_packed_refs_as_coded_rejected : checkProgram specPackRefs progPackRefsAsCoded = false := by
+theorem add_packed_refs_old_order_rejected : checkProgram specPackRefs progPackRefsOldOrder = false := by
   decide
 
-/-- A crash after the loose ref has been removed and before the new `packed-refs` is renamed in
-loses the ref (it is neither loose nor packed). -/
-theorem add_packed_refs_counterexample :
+/-- In the old order a crash after the loose ref has been removed and before the new `packed-refs` is
+renamed in loses the ref (it is neither loose nor packed). -/
+theorem add_packed_refs_old_order_counterexample :
     ∃ G s, Pre specPackRefs G s ∧
-      ¬ Recoverable specPackRefs G s (run (progPackRefsAsCoded.take 2) s) :=
+      ¬ Recoverable specPackRefs G s (run (progPackRefsOldOrder.take 2) s) :=
   ⟨graphOf specPackRefs, toFS specPackRefs.known, pre_of_check _ (by decide),
     not_recoverable_of_ref (r := 1) (by decide)⟩
 
-/-- The same calls with the new `packed-refs` renamed in BEFORE the loose copy is removed are safe. -/
-def progPackRefsFixed : List Call :=
-  [.write (.tmp 1) .junk, .write (.tmp 1) (.packed [(1, 1)]), .rename (.tmp 1) .packedRefs, .unlink (.ref 1)]
-
-theorem add_packed_refs_fixed_order_safe (G : Nat → List Nat) (s : FS) (hpre : Pre specPackRefs G s)
-    (k : Nat) : Recoverable specPackRefs G s (run (progPackRefsFixed.take k) s) :=
-  crashSafe_of_check _ _ (by decide) G s hpre k
-
 /-- `remove_if_equals` on a ref that is both loose (value 2, newer) and packed (value 1, older), as
-coded: lock the ref, remove the LOOSE file, then rewrite `packed-refs` without the ref. -/
+coded: lock the ref, rewrite `packed-refs` without the ref, and only THEN remove the loose file. -/
 def specRemove : Spec :=
   { edges := [(1, []), (2, [1])],
     known := [(.ref 1, some (.refSha 2)), (.packedRefs, some (.packed [(1, 1)])),
@@ -261,33 +265,36 @@ def specRemove : Spec :=
     newRefs := [(1, none)], newPlain := [], garbage := [] }
 
 def progRemoveAsCoded : List Call :=
-  [.write (.tmp 1) .junk, .unlink (.ref 1), .write (.tmp 2) .junk, .write (.tmp 2) (.packed []),
-   .rename (.tmp 2) .packedRefs, .unlink (.tmp 1)]
-
-theorem remove_if_equals_as_coded_rejected : checkProgram specRemove progRemoveAsCoded = false := by
-  decide
-
-/-- A crash between the two removals resurrects the older packed value: neither the old value (2)
-nor the new one (deleted). -/
-theorem remove_if_equals_counterexample :
-    ∃ G s, Pre specRemove G s ∧ ¬ Recoverable specRemove G s (run (progRemoveAsCoded.take 2) s) :=
-  ⟨graphOf specRemove, toFS specRemove.known, pre_of_check _ (by decide),
-    not_recoverable_of_ref (r := 1) (by decide)⟩
-
-/-- Packed entry first, loose file second is safe. -/
-def progRemoveFixed : List Call :=
   [.write (.tmp 1) .junk, .write (.tmp 2) .junk, .write (.tmp 2) (.packed []),
    .rename (.tmp 2) .packedRefs, .unlink (.ref 1), .unlink (.tmp 1)]
 
-theorem remove_if_equals_fixed_order_safe (G : Nat → List Nat) (s : FS) (hpre : Pre specRemove G s)
-    (k : Nat) : Recoverable specRemove G s (run (progRemoveFixed.take k) s) :=
+theorem remove_if_equals_safe (G : Nat → List Nat) (s : FS) (hpre : Pre specRemove G s)
+    (k : Nat) : Recoverable specRemove G s (run (progRemoveAsCoded.take k) s) :=
   crashSafe_of_check _ _ (by decide) G s hpre k
 
-/-- When loose and packed hold the SAME value the as-coded order is harmless (the window shows the
-old value): the finding is specific to a stale packed entry. -/
-theorem remove_if_equals_same_value_safe :
+example : Pre specRemove (graphOf specRemove) (toFS specRemove.known) := pre_of_check _ (by decide)
+
+/-- Regression witness — the order before bb5afda: the LOOSE file was removed first, `packed-refs`
+rewritten second. -/
+def progRemoveOldOrder : List Call :=
+  [.write (.tmp 1) .junk, .unlink (.ref 1), .write (.tmp 2) .junk, .write (.tmp 2) (.packed []),
+   .rename (.tmp 2) .packedRefs, .unlink (.tmp 1)]
+
+theorem remove_if_equals_old_order_rejected : checkProgram specRemove progRemoveOldOrder = false := by
+  decide
+
+/-- In the old order a crash between the two removals resurrects the older packed value: neither the
+old value (2) nor the new one (deleted). -/
+theorem remove_if_equals_old_order_counterexample :
+    ∃ G s, Pre specRemove G s ∧ ¬ Recoverable specRemove G s (run (progRemoveOldOrder.take 2) s) :=
+  ⟨graphOf specRemove, toFS specRemove.known, pre_of_check _ (by decide),
+    not_recoverable_of_ref (r := 1) (by decide)⟩
+
+/-- When loose and packed hold the SAME value even the old order was harmless (the window shows the
+old value): the defect was specific to a stale packed entry. -/
+theorem remove_if_equals_old_order_same_value_accepted :
     checkProgram { specRemove with known := (.ref 1, some (.refSha 1)) :: specRemove.known }
-      progRemoveAsCoded = true := by decide
+      progRemoveOldOrder = true := by decide
 
 end f8
 
